@@ -246,13 +246,7 @@ func (fx *FnExec) allocatedInv(st *State, v Val) string {
 	if v.GT == nil {
 		return ""
 	}
-	switch v.GT.Underlying().(type) {
-	case *types.Pointer, *types.Map, *types.Signature, *types.Interface, *types.Chan:
-		return "(<= " + v.T + " " + st.alloc + ")"
-	case *types.Slice:
-		return "(<= (sl_arr " + v.T + ") " + st.alloc + ")"
-	}
-	return ""
+	return fx.eng.sorts.allocInv(v.GT, v.T, st.alloc)
 }
 
 func (fx *FnExec) run() {
@@ -969,11 +963,15 @@ func (fx *FnExec) havocLoop(st *State, lp *Loop) {
 		names = append(names, c)
 	}
 	sort.Strings(names)
+	if touch["@alloc"] {
+		na := eng.fresh(st, "alloc", SInt)
+		st.assume("(>= " + na + " " + st.alloc + ")")
+		st.alloc = na
+	}
 	allocates := false
 	for _, c := range names {
 		switch {
 		case c == "@alloc":
-			allocates = true
 		case strings.HasPrefix(c, "ghost:"):
 			g := strings.TrimPrefix(c, "ghost:")
 			st.ghost[g] = eng.fresh(st, "g_"+g, eng.ghosts[g])
